@@ -33,7 +33,11 @@ static int regAngleMod = [] {
     paramFns ()["angleMod"] = "α → α";
     natives ()["angleMod"]  = Native{
         [] (const std::vector<double>& a) { return std::vector<double>{(double) IMATH_INTERNAL_NAMESPACE::Euler<double>::angleMod (a[0])}; },
-        [] (const std::vector<float>& a) { return std::vector<float>{IMATH_INTERNAL_NAMESPACE::Euler<float>::angleMod (a[0])}; }};
+        [] (const std::vector<float>& a) { return std::vector<float>{IMATH_INTERNAL_NAMESPACE::Euler<float>::angleMod (a[0])}; },
+        // Lean-side validation of the emitted text (rattv): a fixed rational stand-in for the PARAMETER `angleMod`, the same
+        // function as `ANGLEMOD_STUB` in tools/props/c11.py (not odd, not linear-through-0: a wrong argument or sign at a call
+        // site changes the result)
+        [] (const std::vector<Frac>& a) { return std::vector<Frac>{a[0] * Frac (3, 7) + Frac (1, 5)}; }};
     return 0;
 }();
 } // namespace symns
